@@ -273,6 +273,25 @@ Canon(doc) ==
            [k \in 1..Len(doc.structs) |-> [name |-> UpStr(doc.structs[k].name), cols |-> doc.structs[k].cols]],
            doc.rows)
 
+(***************************************************************************)
+(* The object's convenience accessors, stated on a parse result (beyond    *)
+(* the listed properties; exercised by the C01/C02 replays):               *)
+(*   row(table, i)        - the cells of row i in column order, <<>> when  *)
+(*                          i is out of range                              *)
+(*   list_of_dicts(table) - one column-name -> cell map per row            *)
+(*   new_dict_from_pairs  - keys in first-occurrence order, last value wins*)
+(***************************************************************************)
+RowOf(res, ti, ri) == IF ri \in 1..Len(res.tables[ti].rows) THEN res.tables[ti].rows[ri] ELSE <<>>
+ListOfDicts(res, ti) ==
+  [ri \in 1..Len(res.tables[ti].rows) |->
+     [ci \in 1..Len(res.tables[ti].cols) |-> <<res.tables[ti].cols[ci].name, res.tables[ti].rows[ri][ci]>>]]
+PairKeys(res) == LET ks == [k \in 1..Len(res.pairs) |-> res.pairs[k][1]]
+                 IN SelectSeq([k \in 1..Len(ks) |-> <<k, ks[k]>>], LAMBDA e : \A j \in 1..(e[1] - 1) : ks[j] # e[2])
+PairDict(res) == [k \in 1..Len(PairKeys(res)) |->
+                    LET key == PairKeys(res)[k][2]
+                        last == CHOOSE j \in 1..Len(res.pairs) : res.pairs[j][1] = key /\ \A i \in (j + 1)..Len(res.pairs) : res.pairs[i][1] # key
+                    IN <<key, res.pairs[last][2]>>]
+
 (* which strings are inside the guarantee (C01's exclusion list) *)
 NoDQ(s) == \A k \in 1..Len(s) : s[k] # DQ
 ScalarStringOK(s) == NoDQ(s) /\ (IF s = <<>> THEN TRUE ELSE Head(s) # "{") /\ \A k \in 1..Len(s) : s[k] \notin {NL, CR}
